@@ -2,6 +2,7 @@ package props
 
 import (
 	"fmt"
+	"strings"
 
 	"gorgonia.org/tensor"
 	"verifharness/atlas"
@@ -224,4 +225,59 @@ func c15AttachWidths(r *core.Run) {
 			}
 		}
 	}
+}
+
+// c15Unmasked: a tensor without a mask is the all-valid case of every inspection function.
+func c15Unmasked(r *core.Run) {
+	for _, shape := range [][]int{{1}, {2}, {4}, {5}, {2, 3}, {2, 2, 2}} {
+		if !r.Take() {
+			continue
+		}
+		shape := shape
+		n := ref.Prod(shape)
+		r.Case(fmt.Sprintf("C15|inspect-unmasked|%s", shapeStr(shape)), true, func() *core.Fail {
+			tensor.VerifResetPools()
+			back := make([]float64, n)
+			for i := range back {
+				back[i] = float64(i + 1)
+			}
+			t := tensor.New(tensor.WithShape(shape...), tensor.WithBacking(back))
+			var fails []string
+			chk := func(what string, got, want interface{}) {
+				if fmt.Sprint(got) != fmt.Sprint(want) {
+					fails = append(fails, fmt.Sprintf("%s = %v, expected %v", what, got, want))
+				}
+			}
+			o := call(func() error {
+				chk("MaskedCount", t.MaskedCount(), 0)
+				chk("NonMaskedCount", t.NonMaskedCount(), n)
+				chk("MaskedAny", t.MaskedAny(), false)
+				chk("MaskedAll", t.MaskedAll(), false)
+				chk("FlatNotMaskedContiguous", fmtSlices(t.FlatNotMaskedContiguous()), fmt.Sprintf("[0:%d]", n))
+				chk("FlatMaskedContiguous", fmtSlices(t.FlatMaskedContiguous()), "[]")
+				a, b := t.FlatNotMaskedEdges()
+				chk("FlatNotMaskedEdges", []int{a, b}, []int{0, n - 1})
+				a, b = t.FlatMaskedEdges()
+				chk("FlatMaskedEdges", []int{a, b}, []int{-1, -1})
+				return nil
+			})
+			r.Op(8)
+			r.Outcome("inspect-unmasked:" + o.Class)
+			if o.Class != "ok" {
+				return core.F("unexpected-refusal", "x", "inspection of an unmasked tensor of shape %v: %s", shape, o)
+			}
+			if len(fails) > 0 {
+				return core.F("wrong-mask-query", strings.Join(fails, ";"), "unmasked tensor of shape %v (every element valid): %s", shape, strings.Join(fails, "; "))
+			}
+			return nil
+		})
+	}
+}
+
+func fmtSlices(sl []tensor.Slice) string {
+	parts := make([]string, len(sl))
+	for i, x := range sl {
+		parts[i] = fmt.Sprintf("%d:%d", x.Start(), x.End())
+	}
+	return "[" + strings.Join(parts, " ") + "]"
 }
